@@ -63,6 +63,11 @@ func (m *TN93Model) Distance(seq1 []uint8, seq2 []uint8, weights []float64) (flo
 	// A distance that is not defined (NaN: saturation, no comparable
 	// site) is not a null distance: it is returned as is
 	if dist < 0 {
+		// -Inf (logarithm of exactly 0: saturation) is not a rounding
+		// error: the distance is not defined
+		if math.IsInf(dist, -1) {
+			return math.NaN(), nil
+		}
 		return 0, nil
 	}
 	return dist, nil
